@@ -706,7 +706,7 @@ def _enumerate_ops(tier, shard, nshards):
     lexicon, variant k, plus up to two random operators."""
     from hypothesis import HealthCheck, Phase, given, seed, settings
     vs = int(os.environ.get('VERIF_SEED', '1') or 1)
-    reps = 5 if tier == 'quick' else 12
+    reps = 6 if tier == 'quick' else 12
     cases = []
     for i, name in enumerate(OPNAMES):
         if i % nshards != shard:
@@ -724,6 +724,10 @@ def _enumerate_ops(tier, shard, nshards):
             case['ops'][0]['v'] = rep
             if rep == 0:
                 case['ops'] = case['ops'][:1]
+                target = _TARGET[name]      # generator self-test
+                if target and not must_keys(reference(_broken(case)['lexicons'][0],
+                                                      _inv())[target]):
+                    raise env.HarnessError(f'operator {name} variant 0 did not produce {target}')
             cases.append(case)
     return cases
 
@@ -761,6 +765,13 @@ def _classify(case):
             tags.append('select:category')
     if case.get('cli'):
         tags.append('cli')
+        want = _selected(case['selects'][-1])
+        if any(must_keys(ref[c]) for c in want):
+            tags.append('cli:expect-nonzero')
+        elif not any(allowed_keys(ref[c]) for c in want):
+            tags.append('cli:expect-0')
+        else:
+            tags.append('cli:undecided')
     if must_keys(ref['E204']) or must_keys(ref['E401']):
         tags.append('add-must-reject')
     return bool(case['ops']) and hit, sorted(set(tags))
@@ -982,5 +993,6 @@ SUBS = [
         require_tags=tuple('hit:' + c for c in CODES) + tuple('op:' + n for n in OPNAMES)),
     Sub('operators-random', oracle, _classify, strategy=_strategy,
         budget={'quick': 150, 'thorough': 400}, fingerprint=_fp, sample=_sample,
-        require_tags=('cli', 'add-must-reject', 'select:category')),
+        require_tags=('cli:expect-0', 'cli:expect-nonzero', 'add-must-reject',
+                      'select:category')),
 ]
